@@ -177,3 +177,40 @@ Proof.
   - repeat constructor.
 Qed.
 Print Assumptions format_example.
+
+(* ---- a text used as an ITERABLE (for x in t, list(t), tuple(t), *t, sep.join(t), reversed(t)):
+   neither class defines __iter__ / __reversed__, Python walks t[0], t[1], ...: exactly len(t) items,
+   item k = the k-th visible character as a text of one character in its own colour -- what iterating
+   the underlying str gives.  program_refines covers the statements built on it: SJoinIt / SChunkJoinIt
+   (sep.join(X), X a text / chunk / str = the join over X's characters), OIter, ORevIter, OIn. *)
+Theorem iter_refines : forall sfx t, good sfx t ->
+  text_items t = Ok (map cc_text (cchars t)) /\
+  text_rev_items t = Ok (map cc_text (rev (cchars t))) /\
+  Forall (fun x => good sfx x /\ scrlen x = 1) (map cc_text (cchars t)).
+Proof.
+  intros sfx t Hg. split; [|split].
+  - eapply text_items_ok. split; [exact Hg|reflexivity].
+  - eapply text_rev_items_ok. split; [exact Hg|reflexivity].
+  - destruct Hg as [_ Hw]. pose proof (cc_chunk_wf sfx _ Hw) as HF.
+    apply Forall_forall. intros x Hx. apply in_map_iff in Hx. destruct Hx as (y & <- & Hy).
+    rewrite Forall_forall in HF. split; [apply cc_text_good; apply HF; exact Hy|reflexivity].
+Qed.
+Print Assumptions iter_refines.
+
+Definition prog1 : list stmt :=
+  [SNew (PCons (PC (red [97; 98])) (PCons (PS [99]) PNil));          (* v0 = CHText(red('ab'), 'c') *)
+   SNew (PCons (PS [45]) PNil);                                      (* v1 = CHText('-') *)
+   SJoinIt 1 (ItText 0);                                             (* v2 = v1.join(v0) *)
+   SChunkJoinIt (red [45]) (ItStr [120; 121]);                       (* v3 = red('-').join('xy') *)
+   OIter 0; ORevIter 0; OIn 0 (PC (red [98])); OIn 0 (PS [98])].
+Example prog1_runs :
+  (sfx0 [] = [] /\ Forall (stmt_ok sfx0) prog1) /\
+  map text_str (skipn 2 (heap (fst (exec init_state prog1)))) =
+    [chunk_str (red [97]) ++ [45] ++ chunk_str (red [98]) ++ [45; 99];     (* a-b-c *)
+     [120] ++ chunk_str (red [45]) ++ [121]] /\
+  skipn 4 (snd (exec init_state prog1)) =
+    [sx_res (sx_list sx_text) (Ok (map cc_text (ccs (red [97; 98]) ++ plain_cc [99])));
+     sx_res (sx_list sx_text) (Ok (map cc_text (plain_cc [99] ++ ccs (red [98; 97]))));
+     sx_res sx_bool (Ok true); sx_res sx_bool (Ok false)].
+Proof. split; [split; [reflexivity|repeat constructor]|]. vm_compute. split; reflexivity. Qed.
+Print Assumptions prog1_runs.
